@@ -65,6 +65,12 @@ def gen_cases(tier, seed):
                                 ("tables_after_values", "share_tables", "unsorted_tables",
                                  "wide_bits", "gaps", "channels_reversed")},
                       "vseed": rnd.randrange(2 ** 32)})
+        if rnd.random() < 0.2:
+            # the same chunk written through the dataset I/O layer into a dataset whose
+            # scales are configured with DIFFERENT block sizes (the stored file must follow
+            # the block size that the info gives for its own scale)
+            cases[-1]["via_io"] = [[rnd.choice(BLOCK_CHOICES) for _ in range(3)]
+                                   for _ in range(rnd.choice([1, 2]))]
     # directed: > 65536 distinct labels in one block -> 32 encoded bits
     cases.append({"dtype": "uint32", "block": [64, 32, 33], "shape": [1, 33, 32, 64],
                   "nlab": "all", "mag": "u32", "layout": "C", "style": {}, "vseed": 5})
@@ -238,12 +244,78 @@ def run_case(case):
         except Exception as exc:  # noqa: BLE001
             v.append({"kind": "package-decoder-rejects-valid-file",
                       "detail": f"{ctx} style={case['style']}: {type(exc).__name__}: {exc}"})
+    if case.get("via_io") and not v:
+        v.extend(_via_io(case, arr, nested, rnd, obs, ctx))
     nontrivial = bool(info) and (info["blocks"] > 1 or any(b != 0 for b in info["bits"]))
     sig = f"{case['dtype']}|{case['shape']}|{block}|{case['nlab']}|{case['mag']}|" \
           f"{case['layout']}|{sorted(k for k, on in case['style'].items() if on)}"
     return {"violations": v, "obs": obs, "sigs": [sig] if nontrivial else [],
             "sample": {k: case[k] for k in ("dtype", "shape", "block", "nlab", "mag",
                                             "layout", "style")}}
+
+
+def _via_io(case, arr, nested, rnd, obs, ctx):
+    """Write the chunk through PrecomputedIO into every scale of a dataset whose scales have
+    different compressed_segmentation block sizes; the bytes that reach the accessor must be
+    a well-formed file for the block size of THEIR scale."""
+    import shutil
+    import tempfile
+
+    import numpy as np
+    from neuroglancer_scripts import file_accessor, precomputed_io
+    C, Z, Y, X = case["shape"]
+    blocks = list(case["via_io"])
+    blocks.insert(rnd.randrange(len(blocks) + 1), case["block"])
+    info = {"type": "segmentation", "data_type": case["dtype"], "num_channels": C,
+            "scales": [{"key": f"s{i}", "size": [X, Y, Z], "chunk_sizes": [[X, Y, Z]],
+                        "resolution": [2 ** i] * 3, "voxel_offset": [0, 0, 0],
+                        "encoding": "compressed_segmentation",
+                        "compressed_segmentation_block_size": list(b)}
+                       for i, b in enumerate(blocks)]}
+    d = tempfile.mkdtemp(prefix="c02-")
+    v = []
+    try:
+        acc = file_accessor.FileAccessor(d, flat=True, gzip=rnd.random() < 0.5)
+        pio = precomputed_io.get_IO_for_new_dataset(info, acc)
+        handles = [pio, pio]
+        order = list(range(len(blocks)))
+        rnd.shuffle(order)
+        coords = (0, X, 0, Y, 0, Z)
+        for i in order:
+            pio.write_chunk(arr, f"s{i}", coords)
+        handles[1] = precomputed_io.get_IO_for_existing_dataset(
+            file_accessor.FileAccessor(d))
+        for i in order:
+            raw = acc.fetch_chunk(f"s{i}", coords)
+            obs["chunks_checked_via_dataset_io"] = obs.get("chunks_checked_via_dataset_io",
+                                                           0) + 1
+            if len(set(map(tuple, blocks))) > 1:
+                obs["datasets_with_differing_block_sizes"] = 1
+            try:
+                out, _ = cseg_spec.decode(raw, (C, Z, Y, X), blocks[i],
+                                          np.dtype(case["dtype"]).itemsize)
+            except cseg_spec.SpecError as exc:
+                v.append({"kind": "stored-chunk-not-well-formed-for-its-scale",
+                          "detail": f"{ctx}: scale s{i} of a dataset with block sizes "
+                          f"{blocks} (written in order {order}): {exc}"})
+                break
+            if out != nested:
+                v.append({"kind": "stored-chunk-decodes-differently-with-the-block-size-of-"
+                          "its-scale", "detail": f"{ctx}: scale s{i} of a dataset with "
+                          f"block sizes {blocks} (written in order {order})"})
+                break
+            for h in handles:
+                back = h.read_chunk(f"s{i}", coords)
+                if not np.array_equal(np.asarray(back), np.array(nested, dtype=case["dtype"])):
+                    v.append({"kind": "package-decoder-differs", "detail": f"{ctx}: scale "
+                              f"s{i} read back through the dataset I/O layer"})
+                    break
+    except Exception as exc:  # noqa: BLE001
+        v.append({"kind": "dataset-io-raised", "detail": f"{ctx}: block sizes {blocks}: "
+                  f"{type(exc).__name__}: {str(exc)[:200]}"})
+    finally:
+        shutil.rmtree(d, ignore_errors=True)
+    return v
 
 
 def gates(obs, tier):
@@ -264,4 +336,6 @@ def gates(obs, tier):
         "production_sized_chunk": obs.get("chunk_of_64_cubed", 0) > 0,
         "byte_sparse_label_palettes": obs.get("byte_sparse_palettes", 0) > 50,
         "big_endian_input_arrays": obs.get("big_endian_arrays", 0) > 50,
+        "datasets_with_differing_block_sizes_per_scale": obs.get(
+            "datasets_with_differing_block_sizes", 0) > 50,
     }
